@@ -39,81 +39,108 @@ ASSUMPTIONS = [
 P8 = 'pico8.game.formatter.p8'
 
 
-def rule_identity(ctx, res):
-    model = ctx.model
-    q = P8 + ':process_includes'
-    f = model.func(q)
+def _main_loop(ctx, f):
     loops = [n for n in f.node.body if isinstance(n, ast.For)]
     src_param = f.params()[0]
     main = [lp for lp in loops if isinstance(lp.iter, ast.Name) and
             lp.iter.id == src_param and isinstance(lp.target, ast.Name)]
-    if len(main) != 1:
+    return main[0] if len(main) == 1 else None
+
+
+def _include_paths(ctx, f, lp):
+    """per-line paths of process_includes with the state at loop entry"""
+    from ..absint.symbody import SymBody
+    sym = SymBody(ctx, f, max_paths=3000)
+    i_lp = f.node.body.index(lp)
+    pre = sym.run(f.node.body[:i_lp])
+    env0 = pre[0].env if len(pre) == 1 else {}
+    env0 = {k: v for k, v in env0.items() if k != lp.target.id}
+    return sym, sym.run(lp.body, env0)
+
+
+def _is_match_cond(t, var):
+    """INCLUDE_LINE_RE.match(line) (however spelled) as a test"""
+    tt = ast.unparse(t)
+    return 'match({})'.format(var) in tt or \
+        (', {})'.format(var) in tt and 're.match(' in tt)
+
+
+def rule_identity(ctx, res):
+    model = ctx.model
+    u = ast.unparse
+    q = P8 + ':process_includes'
+    f = model.func(q)
+    lp = _main_loop(ctx, f)
+    if lp is None:
         res.vanished('R-C20-identity', q, 'main loop',
                      'expected one top-level loop over the cart lines')
         return None
-    lp = main[0]
     var = lp.target.id
-    # the recogniser
-    m_names = set()
-    for st in lp.body:
-        if isinstance(st, ast.Assign) and isinstance(st.value, ast.Call) and \
-                isinstance(st.value.func, ast.Attribute) and \
-                st.value.func.attr == 'match' and st.value.args and \
-                isinstance(st.value.args[0], ast.Name) and \
-                st.value.args[0].id == var:
-            r = model.resolve_expr(f.module, st.value.func.value)
-            if r and r[0] == 'const' and r[2] == 'INCLUDE_LINE_RE':
-                for t in st.targets:
-                    if isinstance(t, ast.Name):
-                        m_names.add(t.id)
-    if not m_names:
-        res.vanished('R-C20-identity', q, 'recogniser',
-                     'INCLUDE_LINE_RE.match(line) not found')
-        return None
-    m = sorted(m_names)[0]
-    nomatch = None
-    for st in lp.body:
-        if isinstance(st, ast.If) and isinstance(st.test, ast.UnaryOp) and \
-                isinstance(st.test.op, ast.Not) and \
-                isinstance(st.test.operand, ast.Name) and \
-                st.test.operand.id == m:
-            nomatch = st
-    ok = False
-    if nomatch is not None and not nomatch.orelse:
-        body = nomatch.body
-        ys = [s for s in body if isinstance(s, ast.Expr) and
-              isinstance(s.value, ast.Yield)]
-        ok = (len(body) == 2 and len(ys) == 1 and
-              isinstance(ys[0].value.value, ast.Name) and
-              ys[0].value.value.id == var and
-              isinstance(body[-1], ast.Continue))
+    sym, paths = _include_paths(ctx, f, lp)
+    nomatch, match = [], []
+    for p in paths:
+        m = None
+        for (t, val) in p.conds:
+            t2, v2 = t, val
+            while isinstance(t2, ast.UnaryOp) and isinstance(t2.op, ast.Not):
+                t2, v2 = t2.operand, not v2
+            if isinstance(t2, ast.Compare) and len(t2.ops) == 1 and \
+                    isinstance(t2.comparators[0], ast.Constant) and \
+                    t2.comparators[0].value is None and \
+                    _is_match_cond(t2.left, var):
+                m = v2 if isinstance(t2.ops[0], ast.IsNot) else not v2
+                break
+            if _is_match_cond(t2, var):
+                m = v2
+                break
+        if m is None:
+            res.undecided('R-C20-identity', q, 'recogniser',
+                          'a path through the line loop does not test '
+                          'INCLUDE_LINE_RE.match(line)', f.module.loc(lp))
+            return None
+        (match if m else nomatch).append(p)
+    ok = bool(nomatch)
+    for p in nomatch:
+        ev = [e for e in p.events if e[0] != 'assert']
+        if not (len(ev) == 1 and ev[0][0] == 'yield' and
+                u(ev[0][1]) == var and p.end in ('continue', 'fall')):
+            ok = False
     res.check(ok, 'R-C20-identity', q, 'unmatched line passes through',
               'yielded once, unchanged, then the loop continues',
               'the no-match branch does not yield exactly the line itself '
-              'once', f.module.loc(nomatch or lp))
-    # on the match path the include line itself is never yielded
-    idx = lp.body.index(nomatch) if nomatch in lp.body else 0
-    rest = lp.body[idx + 1:]
-    leaks = []
-    for s in rest:
-        for y in walk_own(s):
-            if isinstance(y, ast.Yield):
-                # must be inside an inner for loop
-                inner = False
-                p = getattr(y, '_parent', None)
-                while p is not None and p is not lp:
-                    if isinstance(p, ast.For):
-                        inner = True
-                    p = getattr(p, '_parent', None)
-                if not inner:
-                    leaks.append(y)
-    res.check(not leaks, 'R-C20-identity', q,
+              'once', f.module.loc(lp))
+    # on the match path the include line itself is never yielded: every
+    # yield happens inside a loop over the included lines
+    leaks = [p for p in match if any(e[0] == 'yield' for e in p.events)]
+    res.check(not leaks and bool(match), 'R-C20-identity', q,
               'an include line yields nothing of itself',
               'all yields on the match path are inside loops over the '
               'included lines',
               'the match path yields outside the included-lines loops '
               '(the #include line or a stray value enters the code)',
               f.module.loc(lp))
+    # a one-shot iterator of included lines must not be kept across include
+    # lines (a second include of the same target would get nothing)
+    from .. import norm
+    i_lp = f.node.body.index(lp)
+    persistent = {t.id for st in f.node.body[:i_lp]
+                  if isinstance(st, ast.Assign) for t in st.targets
+                  if isinstance(t, ast.Name)}
+    cached = []
+    for n in walk_own(lp):
+        if isinstance(n, ast.Assign) and len(n.targets) == 1 and \
+                isinstance(n.targets[0], ast.Subscript) and \
+                isinstance(n.targets[0].value, ast.Name) and \
+                n.targets[0].value.id in persistent:
+            for g in _one_shot_sources(ctx, f, n.value):
+                cached.append((n, g))
+    res.check(not cached, 'R-C20-identity', q,
+              'included lines are not kept as a one-shot iterator', '',
+              'a generator / file iterator ({}) is stored in a table that '
+              'outlives the include line and is iterated again by a later '
+              'include of the same target: the second include yields '
+              'nothing'.format(cached[0][1] if cached else ''),
+              f.module.loc(cached[0][0]) if cached else f.loc)
     # no buffering: no list accumulation of lines in the function
     acc = [n for n in walk_own(f.node) if isinstance(n, ast.Call) and
            isinstance(n.func, ast.Attribute) and
@@ -121,11 +148,78 @@ def rule_identity(ctx, res):
     res.check(not acc, 'R-C20-identity', q, 'no buffering / reordering',
               'pure generator: output order is input order', 'lines are '
               'accumulated before being yielded', f.loc)
-    return lp, var, m
+    return lp, var, (sym, match)
 
 
-def rule_kinds(ctx, res):
+def _one_shot_sources(ctx, f, e, depth=0):
+    """generator calls / file handles the expression may evaluate to (through
+    the returns of package helpers)"""
+    model = ctx.model
+    out = []
+    if depth > 2:
+        return out
+    if isinstance(e, ast.Call):
+        if isinstance(e.func, ast.Attribute) and e.func.attr == 'to_lines':
+            out.append(ast.unparse(e)[:50])
+            return out
+        kind, targets = model.resolve_call(f, e)
+        for t in targets or []:
+            if not hasattr(t, 'node'):
+                continue
+            if any(isinstance(x, (ast.Yield, ast.YieldFrom))
+                   for x in walk_own(t.node)):
+                out.append(t.qual + '() (a generator)')
+                continue
+            for r in walk_own(t.node):
+                if isinstance(r, ast.Return) and r.value is not None:
+                    out.extend(_one_shot_sources(ctx, t, r.value, depth + 1))
+    elif isinstance(e, ast.IfExp):
+        out.extend(_one_shot_sources(ctx, f, e.body, depth))
+        out.extend(_one_shot_sources(ctx, f, e.orelse, depth))
+    elif isinstance(e, ast.GeneratorExp):
+        out.append('a generator expression')
+    return out
+
+
+EXTS = ('.lua', '.p8', '.p8.png')
+
+
+def _ext_feasible(p, ext_expr_texts, e):
+    """can the path be taken when the extension text is e?"""
+    for (t, val) in p.conds:
+        t2, v2 = t, val
+        while isinstance(t2, ast.UnaryOp) and isinstance(t2.op, ast.Not):
+            t2, v2 = t2.operand, not v2
+        if isinstance(t2, ast.Compare) and len(t2.ops) == 1 and \
+                isinstance(t2.comparators[0], ast.Constant) and \
+                isinstance(t2.comparators[0].value, str) and \
+                ast.unparse(t2.left) in ext_expr_texts:
+            c = t2.comparators[0].value
+            if isinstance(t2.ops[0], ast.Eq):
+                if (e == c) != v2:
+                    return False
+            elif isinstance(t2.ops[0], ast.NotEq):
+                if (e != c) != v2:
+                    return False
+            elif isinstance(t2.ops[0], (ast.In, ast.NotIn)):
+                pass
+        elif isinstance(t2, ast.Compare) and len(t2.ops) == 1 and \
+                isinstance(t2.ops[0], (ast.In, ast.NotIn)) and \
+                ast.unparse(t2.left) in ext_expr_texts and \
+                isinstance(t2.comparators[0], (ast.Tuple, ast.List)):
+            vals = [x.value for x in t2.comparators[0].elts
+                    if isinstance(x, ast.Constant)]
+            r = e in vals
+            if isinstance(t2.ops[0], ast.NotIn):
+                r = not r
+            if r != v2:
+                return False
+    return True
+
+
+def rule_kinds(ctx, res, ident=None):
     model, ev = ctx.model, ctx.consts
+    u = ast.unparse
     q = P8 + ':process_includes'
     f = model.func(q)
     rg = ev.module_const(P8, 'INCLUDE_LINE_RE')
@@ -133,6 +227,7 @@ def rule_kinds(ctx, res):
         res.undecided('R-C20-kinds', P8 + ':INCLUDE_LINE_RE', 'pattern',
                       'does not evaluate')
         return
+    # the extension alternatives the recogniser accepts: group 2 literals
     tree = rx.parse(rg.pattern, rg.flags)
     groups = [av for (op, av) in tree if str(op) == 'SUBPATTERN']
     exts = None
@@ -145,19 +240,8 @@ def rule_kinds(ctx, res):
                 if all(str(o) == 'LITERAL' for (o, _a) in alt):
                     alts.append(bytes(a for (_o, a) in alt))
             exts = alts
-    # a literal prefix common to alternatives may be factored out by the
-    # parser; recompute from the automaton instead when needed
-    if exts is not None and not all(e.startswith(b'.') for e in exts):
-        exts = None
-    if exts is None:
-        cands = [b'.p8.png', b'.p8', b'.lua']
-        exts = []
-        for g in groups:
-            pass
-        # fall back: language test of the second group
-        for c in cands:
-            exts.append(c)
-    # optional tab group: \:\d+
+    if exts is None or not all(e.startswith(b'.') for e in exts):
+        exts = [b'.p8.png', b'.p8', b'.lua']
     for (op, av) in tree:
         if str(op) == 'MAX_REPEAT' and av[0] == 0 and av[1] == 1:
             inner = list(av[2])
@@ -166,98 +250,152 @@ def rule_kinds(ctx, res):
                 if seq and str(seq[0][0]) == 'LITERAL' and seq[0][1] == 58:
                     tabgrp = seq
     res.tables['include_extensions'] = [e.decode() for e in exts]
-    # dispatch in the code
-    cmp_consts = set()
-    for n in walk_own(f.node):
-        if isinstance(n, ast.Compare) and len(n.ops) == 1 and \
-                isinstance(n.ops[0], ast.Eq) and \
-                isinstance(n.comparators[0], ast.Constant) and \
-                isinstance(n.comparators[0].value, str) and \
-                n.comparators[0].value.startswith('.'):
-            cmp_consts.add(n.comparators[0].value)
-    res.check(set(e.decode() for e in exts) == {'.p8.png', '.p8', '.lua'} and
-              cmp_consts == {'.p8', '.p8.png'}, 'R-C20-kinds', q,
-              'recogniser kinds == dispatched kinds',
-              'regex alternatives {} ; cart kinds compared {} ; the rest is '
-              'the .lua branch'.format(sorted(e.decode() for e in exts),
-                                       sorted(cmp_consts)),
-              'recogniser accepts {} but the dispatch compares {}'.format(
-                  sorted(e.decode() for e in exts), sorted(cmp_consts)),
-              f.loc)
-    # formatter choice
-    choice = None
-    for n in walk_own(f.node):
-        if isinstance(n, ast.IfExp) and isinstance(n.test, ast.Compare) and \
-                isinstance(n.test.comparators[0], ast.Constant):
-            choice = n
-    ok = False
-    detail = 'formatter selection not found'
-    if choice is not None:
-        ext = choice.test.comparators[0].value
-        a = model.resolve_expr(f.module, choice.body)
-        b = model.resolve_expr(f.module, choice.orelse)
-        names = (a[1].name if a and a[0] == 'class' else None,
-                 b[1].name if b and b[0] == 'class' else None)
-        eq = isinstance(choice.test.ops[0], ast.Eq)
-        want = {'.p8': ('P8Formatter', 'P8PNGFormatter'),
-                '.p8.png': ('P8PNGFormatter', 'P8Formatter')}
-        ok = ext in want and eq and names == want[ext]
-        detail = '{} -> {} else {}'.format(ext, names[0], names[1])
-    res.check(ok, 'R-C20-kinds', q, 'cart kind selects its formatter',
-              detail, 'wrong formatter for the extension: ' + detail,
-              f.module.loc(choice) if choice is not None else f.loc)
-    # from_file(..., do_includes=False) and lines_for_tab(<to_lines>, tab)
-    ff = [c for c in walk_own(f.node) if isinstance(c, ast.Call) and
-          isinstance(c.func, ast.Attribute) and c.func.attr == 'from_file']
-    ok = len(ff) == 1 and any(
-        k.arg == 'do_includes' and isinstance(k.value, ast.Constant) and
-        k.value.value is False for k in ff[0].keywords)
-    res.check(ok, 'R-C20-kinds', q, 'included carts are not expanded further',
+    res.check(set(e.decode() for e in exts) == set(EXTS), 'R-C20-kinds', q,
+              'recogniser accepts exactly .lua / .p8 / .p8.png', '',
+              'recogniser accepts {}'.format(sorted(e.decode()
+                                                    for e in exts)), f.loc)
+    if ident is None:
+        return
+    lp, var, (sym, match) = ident
+    # texts by which the extension (group 2, decoded) is known on a path
+    ext_texts = set()
+    for p in match:
+        for (t, _v) in p.conds:
+            for n in ast.walk(t):
+                if isinstance(n, ast.Compare) and \
+                        isinstance(n.comparators[0], ast.Constant) and \
+                        n.comparators[0].value in EXTS:
+                    ext_texts.add(u(n.left))
+                if isinstance(n, ast.Compare) and isinstance(
+                        n.comparators[0], (ast.Tuple, ast.List)) and any(
+                        isinstance(x, ast.Constant) and x.value in EXTS
+                        for x in n.comparators[0].elts):
+                    ext_texts.add(u(n.left))
+    live = [p for p in match if p.end != 'raise']
+    per_ext = {e: [p for p in live if _ext_feasible(p, ext_texts, e)]
+               for e in EXTS}
+    want_cls = {'.p8': 'P8Formatter', '.p8.png': 'P8PNGFormatter'}
+    kinds_ok = True
+    detail = []
+    undec = []
+    ff_ok = True
+    tab_ok = True
+    lua_ok = True
+    tab_exprs = set()
+    tab_on_path = []
+    for e in EXTS:
+        if not per_ext[e]:
+            kinds_ok = False
+            detail.append('no path handles ' + e)
+        for p in per_ext[e]:
+            inner = [x for x in p.events if x[0] == 'loop']
+            if len(inner) != 1 or not isinstance(inner[0][1], ast.For):
+                kinds_ok = False
+                detail.append('{}: {} loops over included lines'.format(
+                    e, len(inner)))
+                continue
+            it = sym.S(inner[0][1].iter, inner[0][2])
+            itt = u(it)
+            ffs = [c for c in ast.walk(it) if isinstance(c, ast.Call) and
+                   isinstance(c.func, ast.Attribute) and
+                   c.func.attr == 'from_file']
+            if e == '.lua':
+                # the file's own lines: the handle of the opened target
+                opened = [x for x in p.events if x[0] == 'with' and
+                          u(x[1]).startswith('open(')]
+                if not opened:
+                    undec.append('.lua: the open of the target was not '
+                                 'found on the path')
+                    continue
+                if ffs or 'lines_for_tab' in itt:
+                    lua_ok = False
+                # no filtering inside the loop other than the newline fix
+                for st in inner[0][1].body:
+                    if isinstance(st, ast.If) and \
+                            'endswith' not in u(st.test):
+                        lua_ok = False
+                continue
+            if len(ffs) != 1:
+                undec.append('{}: the cart loader call was not found in {}'
+                             .format(e, itt[:60]))
+                continue
+            r = model.resolve_expr(f.module, ffs[0].func.value)
+            cname = r[1].name if r and r[0] == 'class' else u(
+                ffs[0].func.value)
+            if cname != want_cls[e]:
+                kinds_ok = False
+                detail.append('{} is loaded with {}'.format(e, cname))
+            if not any(k.arg == 'do_includes' and
+                       isinstance(k.value, ast.Constant) and
+                       k.value.value is False for k in ffs[0].keywords):
+                ff_ok = False
+            # lines_for_tab(<cart>.lua.to_lines(), <tab>)
+            if not (isinstance(it, ast.Call) and
+                    u(it.func).endswith('lines_for_tab') and
+                    len(it.args) == 2 and '.lua.to_lines()' in u(it.args[0])
+                    and 'from_file' in u(it.args[0])):
+                tab_ok = False
+            else:
+                tab_exprs.add(u(it.args[1]))
+                tab_on_path.append((p, u(it.args[1])))
+    for msg in sorted(set(undec))[:2]:
+        res.undecided('R-C20-kinds', q, 'cart kind selects its formatter',
+                      msg, f.module.loc(lp))
+    res.check(kinds_ok, 'R-C20-kinds', q, 'cart kind selects its formatter',
+              '.p8 -> P8Formatter, .p8.png -> P8PNGFormatter, .lua -> the '
+              'file itself', 'wrong dispatch: ' + '; '.join(
+                  sorted(set(detail))[:3]), f.module.loc(lp))
+    res.check(ff_ok, 'R-C20-kinds', q,
+              'included carts are not expanded further',
               'from_file(..., do_includes=False)',
               'includes inside included carts would be expanded '
-              '(do_includes is not the constant False)',
-              f.module.loc(ff[0]) if ff else f.loc)
-    lft = [c for c in walk_own(f.node) if isinstance(c, ast.Call)]
-    lft = [c for c in lft if any(
-        isinstance(t, FuncInfo) and t.qual == P8 + ':lines_for_tab'
-        for t in model.resolve_call(f, c)[1])]
-    ok = len(lft) == 1 and len(lft[0].args) == 2 and \
-        'to_lines' in ast.unparse(lft[0].args[0]) and \
-        '.lua.' in ast.unparse(lft[0].args[0]) and \
-        isinstance(lft[0].args[1], ast.Name)
-    tabvar = lft[0].args[1].id if ok else None
-    res.check(ok, 'R-C20-kinds', q, 'cart code filtered by the tab selector',
+              '(do_includes is not the constant False)', f.module.loc(lp))
+    res.check(tab_ok, 'R-C20-kinds', q,
+              'cart code filtered by the tab selector',
               'lines_for_tab(<cart>.lua.to_lines(), <tab>)',
               'the included cart\'s code is not passed through '
               'lines_for_tab with the selector', f.loc)
-    # tab number = int(text after the colon), decimal
-    ok = False
-    if tabvar:
-        for (st, v) in assignments_to(f.node, tabvar):
-            if isinstance(v, ast.Call) and isinstance(v.func, ast.Name) and \
-                    v.func.id == 'int' and len(v.args) == 1 and \
-                    isinstance(v.args[0], ast.Subscript) and \
-                    isinstance(v.args[0].slice, ast.Slice) and \
-                    isinstance(v.args[0].slice.lower, ast.Constant) and \
-                    v.args[0].slice.lower.value == 1 and \
-                    v.args[0].slice.upper is None:
-                ok = True
-    res.check(ok and tabgrp is not None, 'R-C20-kinds', q,
-              'tab selector is the decimal number after the colon',
-              'int(text[1:]) of the optional `:digits` group',
-              'tab selector parsing changed', f.loc)
-    # .lua branch: the file's own lines
-    lua_ok = False
-    for lp in walk_own(f.node):
-        if isinstance(lp, ast.For) and isinstance(lp.iter, ast.Name):
-            for (st, v) in assignments_to(f.node, lp.iter.id):
-                if isinstance(st, ast.With) and isinstance(v, ast.Call) and \
-                        model.ext_name(f.module, v.func) == 'open':
-                    ys = [y for s in lp.body for y in walk_own(s)
-                          if isinstance(y, ast.Yield)]
-                    tests = [s for s in lp.body if isinstance(s, ast.If)
-                             and 'endswith' not in ast.unparse(s.test)]
-                    lua_ok = len(ys) == 1 and not tests
+    # tab number = int(text after the colon), decimal; None without selector
+    sel_ok = (tabgrp is not None) if tab_on_path else None
+    sel_detail = 'no cart path hands a tab selector to lines_for_tab'
+    for (p, te) in tab_on_path:
+        has_sel = None
+        for (t, val) in p.conds:
+            tt = u(t)
+            t2, v2 = t, val
+            while isinstance(t2, ast.UnaryOp) and isinstance(t2.op, ast.Not):
+                t2, v2 = t2.operand, not v2
+            tt = u(t2)
+            if tt.endswith('groups()[2]') or tt.endswith('group(3)'):
+                has_sel = v2
+            elif (tt.endswith('groups()[2] is None') or
+                  tt.endswith('group(3) is None')):
+                has_sel = not v2
+            elif (tt.endswith('groups()[2] is not None') or
+                  tt.endswith('group(3) is not None')):
+                has_sel = v2
+        if has_sel is None:
+            sel_ok = None if sel_ok else sel_ok
+            sel_detail = 'no test of the selector group on a cart path'
+        elif has_sel:
+            good = te.startswith('int(') and '[1:]' in te and (
+                'group(3)' in te or 'groups()[2]' in te)
+            if not good:
+                sel_ok = False
+                sel_detail = 'with a selector the tab handed on is ' + te
+        elif te != 'None':
+            sel_ok = False
+            sel_detail = 'without a selector the tab handed on is ' + te
+    if sel_ok is None:
+        res.undecided('R-C20-kinds', q,
+                      'tab selector is the decimal number after the colon',
+                      sel_detail, f.loc)
+    else:
+        res.check(sel_ok, 'R-C20-kinds', q,
+                  'tab selector is the decimal number after the colon',
+                  'int(text[1:]) of the optional `:digits` group, None '
+                  'without it', 'tab selector parsing changed: ' + sel_detail,
+                  f.loc)
     res.check(lua_ok, 'R-C20-kinds', q,
               '.lua include yields every line of the file',
               'unfiltered loop over the file', 'the .lua branch filters or '
@@ -266,167 +404,155 @@ def rule_kinds(ctx, res):
 
 
 def rule_tabs(ctx, res):
+    """lines_for_tab from its per-line paths: the counter advances on every
+    separator line; a separator is yielded only when no tab is selected; a
+    code line is yielded iff no tab is selected or the counter equals it."""
+    from ..absint.symbody import SymBody
     model = ctx.model
+    u = ast.unparse
     q = P8 + ':lines_for_tab'
     f = model.func(q)
-    cfg = cfg_of(f)
     if len(f.params()) < 2:
         res.vanished('R-C20-tabs', q, 'params', 'signature changed')
         return
-    sel = f.params()[1]
+    src, sel = f.params()[0], f.params()[1]
+    loops = [n for n in f.node.body if isinstance(n, ast.For) and
+             isinstance(n.iter, ast.Name) and n.iter.id == src and
+             isinstance(n.target, ast.Name)]
+    if len(loops) != 1:
+        res.vanished('R-C20-tabs', q, 'line loop', 'loop over the lines')
+        return
+    lp = loops[0]
+    line = lp.target.id
+    sym = SymBody(ctx, f)
+    pre = sym.run(f.node.body[:f.node.body.index(lp)])
+    if len(pre) != 1:
+        res.undecided('R-C20-tabs', q, 'prologue', 'branches before the loop')
+        return
+    env0 = pre[0].env
+    counters = [k for k, v in env0.items() if isinstance(v, ast.Constant) and
+                isinstance(v.value, int) and not isinstance(v.value, bool)]
     cnt = None
-    for st in f.node.body:
-        if isinstance(st, ast.Assign) and isinstance(st.targets[0], ast.Name) \
-                and isinstance(st.value, ast.Constant) and \
-                isinstance(st.value.value, int):
-            cnt = (st.targets[0].id, st.value.value)
-    res.check(cnt is not None and cnt[1] == 0, 'R-C20-tabs', q,
+    for k in counters:
+        if any(isinstance(x, ast.Name) and x.id == k and
+               isinstance(x.ctx, ast.Store) for x in ast.walk(lp)):
+            cnt = k
+    res.check(cnt is not None and env0[cnt].value == 0, 'R-C20-tabs', q,
               'tab counter starts at 0', '', 'counter initial value is '
-              '{}'.format(cnt), f.loc)
+              '{}'.format(u(env0[cnt]) if cnt else None), f.loc)
     if cnt is None:
         return
-    c = cnt[0]
-    tabtests = [n for n in cfg.nodes if n.kind == 'test' and
-                isinstance(n.ast, ast.Call) and
-                isinstance(n.ast.func, ast.Attribute) and
-                n.ast.func.attr in ('match', 'search') and
-                'TAB_LINE_RE' in ast.unparse(n.ast.func.value)]
-    if len(tabtests) != 1:
-        res.vanished('R-C20-tabs', q, 'separator test',
-                     'TAB_LINE_RE test not found')
-        return
-    tt = tabtests[0]
-    incs = [n for n in cfg.nodes if isinstance(n.ast, ast.AugAssign) and
-            isinstance(n.ast.target, ast.Name) and n.ast.target.id == c]
-    ok = len(incs) == 1 and isinstance(incs[0].ast.op, ast.Add) and \
-        isinstance(incs[0].ast.value, ast.Constant) and \
-        incs[0].ast.value.value == 1 and \
-        cfg.edge_dominates(tt, 'true', incs[0])
-    # and every separator increments: no path from the true edge back to the
-    # loop head avoiding the increment
-    if ok:
-        heads = [n for n in cfg.nodes if n.kind == 'iter']
-        reach = cfg.reachable_from(cfg.succ_by_label(tt, 'true'),
-                                   avoid=set(incs))
-        ok = not any(h in reach for h in heads) and cfg.exit not in reach
-    res.check(ok, 'R-C20-tabs', q, 'counter += 1 on every separator line',
-              '', 'the tab counter is not advanced exactly once per '
-              'separator', f.loc)
-    ynodes = [n for n in cfg.nodes if n.kind == 'stmt' and n.ast is not None
-              and any(isinstance(x, ast.Yield) for x in walk_own(n.ast))]
-
-    def guard_of(y):
-        """tests (node,label) that edge-dominate y, other than tt"""
-        out = []
-        for n in cfg.nodes:
-            if n.kind == 'test' and n is not tt:
-                for lab in ('true', 'false'):
-                    if cfg.succ_by_label(n, lab) and \
-                            cfg.edge_dominates(n, lab, y):
-                        out.append((n, lab))
-        return out
-
-    def is_none_test(t):
-        return isinstance(t, ast.Compare) and len(t.ops) == 1 and \
-            isinstance(t.ops[0], ast.Is) and isinstance(t.left, ast.Name) \
-            and t.left.id == sel and \
-            isinstance(t.comparators[0], ast.Constant) and \
-            t.comparators[0].value is None
-
-    def is_eq_test(t):
-        if isinstance(t, ast.Compare) and len(t.ops) == 1 and \
-                isinstance(t.ops[0], ast.Eq):
-            a, b = t.left, t.comparators[0]
-            names = {x.id for x in (a, b) if isinstance(x, ast.Name)}
-            return names == {sel, c}
-        return False
-    sep_ok = code_ok = False
-    n_sep = n_code = 0
-    for y in ynodes:
-        if cfg.edge_dominates(tt, 'true', y):
-            n_sep += 1
-            g = guard_of(y)
-            sep_ok = any(is_none_test(n.ast) and lab == 'true'
-                         for (n, lab) in g)
-        elif cfg.edge_dominates(tt, 'false', y):
-            n_code += 1
-            g = guard_of(y)
-            for (n, lab) in g:
-                t = n.ast
-                if lab == 'true' and isinstance(t, ast.BoolOp) and \
-                        isinstance(t.op, ast.Or) and len(t.values) == 2 and \
-                        any(is_none_test(v) for v in t.values) and \
-                        any(is_eq_test(v) for v in t.values):
-                    code_ok = True
-    res.check(n_sep == 1 and sep_ok, 'R-C20-tabs', q,
-              'separator lines only when no tab is selected',
-              '', 'separator lines are yielded under a different condition',
-              f.loc)
-    res.check(n_code == 1 and code_ok, 'R-C20-tabs', q,
-              'code line yielded iff no tab selected or selected == counter',
-              '', 'the selection test is not `sel is None or sel == '
-              'counter`: another tab (or none) is spliced', f.loc)
-    # yields the line itself
-    same = all(isinstance(x.value, ast.Name) for y in ynodes
-               for x in walk_own(y.ast) if isinstance(x, ast.Yield))
-    res.check(same, 'R-C20-tabs', q, 'lines yielded unchanged', '',
-              'a transformed value is yielded', f.loc)
+    env = {k: v for k, v in env0.items() if k not in (cnt, line)}
+    problems = []
+    n_paths = 0
+    for p in sym.run(lp.body, env):
+        n_paths += 1
+        sep = none = eq = None
+        for (t, val) in p.conds:
+            t2, v2 = t, val
+            while isinstance(t2, ast.UnaryOp) and isinstance(t2.op, ast.Not):
+                t2, v2 = t2.operand, not v2
+            tt = u(t2)
+            if 'match({})'.format(line) in tt or \
+                    ('re.match(' in tt and ', {})'.format(line) in tt):
+                if tt.endswith(' is not None'):
+                    sep = v2
+                elif tt.endswith(' is None'):
+                    sep = not v2
+                else:
+                    sep = v2
+            elif tt == sel + ' is None':
+                none = v2
+            elif tt == sel + ' is not None':
+                none = not v2
+            elif tt in ('{} == {}'.format(sel, cnt),
+                        '{} == {}'.format(cnt, sel)):
+                eq = v2
+            elif tt in ('{} != {}'.format(sel, cnt),
+                        '{} != {}'.format(cnt, sel)):
+                eq = not v2
+            else:
+                problems.append('unrecognised test ' + tt[:50])
+        if sep is None:
+            problems.append('a line is handled without the separator test')
+            continue
+        ys = [e for e in p.events if e[0] == 'yield']
+        if any(u(e[1]) != line for e in ys) or len(ys) > 1:
+            problems.append('something other than the line is yielded')
+        new = u(p.env[cnt]) if cnt in p.env else cnt
+        if sep:
+            if new != cnt + ' + 1':
+                problems.append('a separator line sets the counter to ' + new)
+            if ys and none is not True:
+                problems.append('a separator line is yielded although a tab '
+                                'may be selected')
+            if not ys and none is not False:
+                problems.append('a separator line is dropped although no '
+                                'tab may be selected')
+        else:
+            if new != cnt:
+                problems.append('a code line changes the counter to ' + new)
+            if ys and not (none is True or eq is True):
+                problems.append('a code line is yielded without `no tab '
+                                'selected` or `counter == tab`')
+            if not ys and not (none is False and eq is False):
+                problems.append('a code line is dropped although it may '
+                                'belong to the selected tab')
+    res.check(not problems and n_paths >= 3, 'R-C20-tabs', q,
+              'counter += 1 on every separator; separators only without a '
+              'selector; code lines iff no selector or counter == tab',
+              '{} per-line paths'.format(n_paths),
+              '; '.join(sorted(set(problems))[:3]), f.loc)
 
 
-def rule_missing(ctx, res):
+def rule_missing(ctx, res, ident=None):
     model = ctx.model
+    u = ast.unparse
     q = P8 + ':process_includes'
     f = model.func(q)
-    cfg = cfg_of(f)
-    opens = [n for n in model.own_nodes(f.node) if isinstance(n, ast.Call)
-             and model.ext_name(f.module, n.func) == 'open']
-    if len(opens) < 2:
-        res.vanished('R-C20-missing', q, 'opens', 'expected two opens')
+    if ident is None:
+        res.undecided('R-C20-missing', q, 'opens', 'main loop not analysed')
         return
-    for o in opens:
-        arg = o.args[0] if o.args else None
-        ok = False
-        for n in cfg.nodes:
-            if n.kind != 'test':
-                continue
-            t = n.ast
-            neg = isinstance(t, ast.UnaryOp) and isinstance(t.op, ast.Not)
-            inner = t.operand if neg else t
-            if isinstance(inner, ast.Call) and model.ext_name(
-                    f.module, inner.func) == 'os.path.isfile' and \
-                    inner.args and arg is not None and \
-                    ast.dump(inner.args[0]) == ast.dump(arg):
-                fail = 'true' if neg else 'false'
-                heads = {x for x in cfg.nodes if x.kind == 'iter'}
-                reach = cfg.reachable_from(cfg.succ_by_label(n, fail),
-                                           avoid={n} | heads)
-                raises = cfg.raise_exit in reach and \
-                    cfg.exit not in reach and not any(
-                        on in reach for on in cfg.nodes_of(o)) and not any(
-                            h in {m for x in reach for (m, _l) in x.succ}
-                            for h in heads)
-                other = cfg.succ_by_label(n, 'false' if neg else 'true')
-                rejoin = any(m in reach for m in other)
-                if raises and not rejoin and all(
-                        cfg.dominates(n, on) for on in cfg.nodes_of(o)):
-                    ok = True
-        res.check(ok, 'R-C20-missing', q,
-                  'open({}) behind a raising isfile test'.format(
-                      unparse(arg, 30) if arg is not None else '?'),
-                  'a missing include target fails the load',
-                  'no raising os.path.isfile test on the opened path '
-                  'dominates this open', f.module.loc(o))
+    lp, var, (sym, match) = ident
+    n_open = 0
+    ok = True
+    for p in match:
+        for k, e in enumerate(p.events):
+            if e[0] == 'with' and u(e[1]).startswith('open('):
+                n_open += 1
+                arg = u(e[1].args[0]) if e[1].args else ''
+                tested = any(
+                    p.conds.at[i] <= k and (
+                        (u(t) == 'os.path.isfile({})'.format(arg) and v) or
+                        (u(t) == 'not os.path.isfile({})'.format(arg)
+                         and not v))
+                    for i, (t, v) in enumerate(p.conds))
+                if not tested:
+                    ok = False
+    raised = any(p.end == 'raise' and any(
+        u(t).startswith('os.path.isfile(') and not v for (t, v) in p.conds)
+        for p in match)
+    if n_open == 0:
+        res.undecided('R-C20-missing', q, 'opens',
+                      'no open() of the include target on the match paths')
+        return
+    res.check(ok and raised, 'R-C20-missing', q,
+              'open(<target>) behind a raising isfile test',
+              'a missing include target fails the load ({} opening '
+              'path(s))'.format(n_open),
+              'no raising os.path.isfile test on the opened path precedes '
+              'an open', f.module.loc(lp))
 
 
 def run(ctx, res):
     model = ctx.model
-    rule_identity(ctx, res)
-    rule_kinds(ctx, res)
+    ident = rule_identity(ctx, res)
+    rule_kinds(ctx, res, ident)
     rule_tabs(ctx, res)
-    rule_missing(ctx, res)
+    rule_missing(ctx, res, ident)
     f = model.func(P8 + ':process_includes')
     n = splice.check_yield_loops(model, f, res)
-    if n < 2:
+    if n < 1:
         res.vanished('R-C14-splice', f.qual, 'splice loops',
-                     'expected the cart and the .lua splice loops, found '
+                     'expected the loop(s) splicing included lines, found '
                      '{}'.format(n))
